@@ -10,11 +10,14 @@
 package main
 
 import (
+	"bytes"
+	"context"
 	"encoding/json"
 	"flag"
 	"fmt"
 	"math"
 	"os"
+	"os/exec"
 	"runtime"
 	"strings"
 	"sync"
@@ -259,13 +262,12 @@ type edgeInfo struct {
 
 // ---------------------------------------------------------------- one case
 type outcome struct {
-	big     bool
-	coq     string
-	goFail  string
-	failKey string
-	nontriv bool
-	tris    int
-	stats   map[string]int
+	Big     bool           `json:"big"`
+	Coq     string         `json:"coq"`
+	GoFail  string         `json:"go_fail"`
+	Nontriv bool           `json:"nontriv"`
+	Tris    int            `json:"tris"`
+	Stats   map[string]int `json:"stats"`
 }
 
 func runImpl(d Desc, fs []marching.Field) (m modeling.Mesh, crash string) {
@@ -346,7 +348,7 @@ func signedVolumeCells(ps []vector3.Float64, idx []int, cpu float64) float64 {
 }
 
 func evalCase(d Desc) outcome {
-	out := outcome{stats: map[string]int{}}
+	out := outcome{Stats: map[string]int{}}
 	fs := buildFields(d)
 	ulo, uhi := unionBox(fs, d.Cpu)
 	big := (uhi[0]-ulo[0]+1)*(uhi[1]-ulo[1]+1)*(uhi[2]-ulo[2]+1) > maxDensePoints
@@ -357,23 +359,23 @@ func evalCase(d Desc) outcome {
 		g = tightGrid(dense, d.Cutoff)
 		big = g.size() > maxGridPoints
 	}
-	out.big = big
+	out.Big = big
 	m, crash := runImpl(d, fs)
 	if crash != "" {
-		out.goFail = "implementation panicked: " + crash
-		out.coq = "CGoOnly"
+		out.GoFail = "implementation panicked: " + crash
+		out.Coq = "CGoOnly"
 		return out
 	}
 	ps, idx := meshData(m)
-	out.tris = len(idx) / 3
-	out.nontriv = out.tris > 0
+	out.Tris = len(idx) / 3
+	out.Nontriv = out.Tris > 0
 	fails := []string{}
 
 	dup, unm, deg := goClosed(idx)
 	if dup+unm+deg > 0 {
-		fails = append(fails, fmt.Sprintf("not closed: %d directed edges used twice, %d without matching reverse, %d degenerate faces (of %d triangles)", dup, unm, deg, out.tris))
+		fails = append(fails, fmt.Sprintf("not closed: %d directed edges used twice, %d without matching reverse, %d degenerate faces (of %d triangles)", dup, unm, deg, out.Tris))
 	}
-	if out.tris > 0 {
+	if out.Tris > 0 {
 		if vol := signedVolumeCells(ps, idx, d.Cpu); !(vol > 0) {
 			fails = append(fails, fmt.Sprintf("enclosed volume %g cells^3 is not positive", vol))
 		}
@@ -403,8 +405,8 @@ func evalCase(d Desc) outcome {
 		if bad > 0 {
 			fails = append(fails, fmt.Sprintf("%d vertices farther than one cell from any sign change", bad))
 		}
-		out.coq = "CGoOnly"
-		out.goFail = strings.Join(fails, "; ")
+		out.Coq = "CGoOnly"
+		out.GoFail = strings.Join(fails, "; ")
 		return out
 	}
 
@@ -502,7 +504,7 @@ func evalCase(d Desc) outcome {
 	for _, ks := range cornerKeys {
 		if len(ks) > 1 {
 			skip = true
-			out.stats["skip:inblock-dedupe-vs-final-bucket"]++
+			out.Stats["skip:inblock-dedupe-vs-final-bucket"]++
 			break
 		}
 	}
@@ -533,7 +535,7 @@ func evalCase(d Desc) outcome {
 	}
 	if ambiguous > 0 {
 		skip = true
-		out.stats["skip:crossing-on-bucket-boundary"]++
+		out.Stats["skip:crossing-on-bucket-boundary"]++
 	}
 
 	// every output vertex coincides with the crossing point of an edge of its bucket
@@ -543,7 +545,7 @@ func evalCase(d Desc) outcome {
 	}
 	for _, es := range byBucket {
 		if len(es) > 1 {
-			out.stats["merged-buckets"]++
+			out.Stats["merged-buckets"]++
 		}
 	}
 	offEdge := 0
@@ -594,7 +596,7 @@ func evalCase(d Desc) outcome {
 				badOrient++
 			}
 		}
-		out.stats["orient:judged"] += judged
+		out.Stats["orient:judged"] += judged
 		if badOrient > 0 {
 			fails = append(fails, fmt.Sprintf("%d of %d triangles face from outside to inside", badOrient, judged))
 		}
@@ -612,11 +614,11 @@ func evalCase(d Desc) outcome {
 		hx.CoqZ(int64(g.lo[0])), hx.CoqZ(int64(g.lo[1])), hx.CoqZ(int64(g.lo[2])),
 		hx.CoqZ(int64(g.hi[0])), hx.CoqZ(int64(g.hi[1])), hx.CoqZ(int64(g.hi[2])),
 		hx.CoqListZ(inside), hx.CoqListZ(ecodes), hx.CoqListN(ebuckets), hx.CoqListN(vb), hx.CoqListN(idx), hx.CoqBool(skip))
-	out.coq = sb.String()
-	out.goFail = strings.Join(fails, "; ")
-	out.stats["grid-points"] = g.size()
+	out.Coq = sb.String()
+	out.GoFail = strings.Join(fails, "; ")
+	out.Stats["grid-points"] = g.size()
 	if dupBucket > 0 {
-		out.stats["two-vertices-one-bucket"]++
+		out.Stats["two-vertices-one-bucket"]++
 	}
 	return out
 }
@@ -910,6 +912,35 @@ func newJob(kind string, d Desc) *job {
 	return &job{kind: kind, d: d, lo: lo, hi: hi, sheet: -1}
 }
 
+// evalIsolated runs one case in a child process (the harness itself with -one): a panic in one of the
+// implementation's own goroutines (MarchParallel) or a hang cannot be recovered in-process.
+func evalIsolated(d Desc) outcome {
+	in, _ := json.Marshal(d)
+	ctx, cancel := context.WithTimeout(context.Background(), 900*time.Second)
+	defer cancel()
+	cmd := exec.CommandContext(ctx, os.Args[0], "-one")
+	cmd.Stdin = bytes.NewReader(in)
+	var stdout, stderr bytes.Buffer
+	cmd.Stdout, cmd.Stderr = &stdout, &stderr
+	err := cmd.Run()
+	var o outcome
+	if err == nil {
+		if json.Unmarshal(stdout.Bytes(), &o) == nil && o.Coq != "" {
+			return o
+		}
+		err = fmt.Errorf("unreadable child output")
+	}
+	msg := stderr.String()
+	if len(msg) > 600 {
+		msg = msg[:600]
+	}
+	what := "implementation crashed"
+	if ctx.Err() != nil {
+		what = "implementation did not return within 900 s"
+	}
+	return outcome{Coq: "CGoOnly", GoFail: fmt.Sprintf("%s (%v): %s", what, err, msg), Stats: map[string]int{}}
+}
+
 func evalAll(jobs []*job) {
 	workers := runtime.NumCPU() * 3 / 4
 	if workers < 1 {
@@ -926,8 +957,8 @@ func evalAll(jobs []*job) {
 			defer wg.Done()
 			for j := range ch {
 				t0 := time.Now()
-				j.o = evalCase(j.d)
-				j.big = j.o.big
+				j.o = evalIsolated(j.d)
+				j.big = j.o.Big
 				if el := time.Since(t0); el > 20*time.Second {
 					fmt.Fprintf(os.Stderr, "c09: slow case (%s, %.0fs): %s\n", j.kind, el.Seconds(), key(j.d)[:min(len(key(j.d)), 300)])
 				}
@@ -943,14 +974,14 @@ func evalAll(jobs []*job) {
 
 func record(run *hx.Run, j *job) {
 	d, o, lo, hi := j.d, j.o, j.lo, j.hi
-	c := hx.Case{Kind: j.kind, Desc: d, Coq: o.coq, Nontriv: o.nontriv, Key: key(d), GoFail: o.goFail}
-	if o.stats["merged-buckets"] > 0 {
+	c := hx.Case{Kind: j.kind, Desc: d, Coq: o.Coq, Nontriv: o.Nontriv, Key: key(d), GoFail: o.GoFail}
+	if o.Stats["merged-buckets"] > 0 {
 		// the final weld put the crossing points of two different grid edges into one vertex
 		c.FailKey = "march:weld-precision-vs-resolution"
 		run.Count("weld-merged-distinct-crossings")
 	}
 	run.Add(c)
-	for k, v := range o.stats {
+	for k, v := range o.Stats {
 		if strings.HasPrefix(k, "skip:") || k == "two-vertices-one-bucket" {
 			run.Dist[k] += v
 		}
@@ -967,11 +998,11 @@ func record(run *hx.Run, j *job) {
 		run.Count("cutoff<0")
 	}
 	switch {
-	case o.tris == 0:
+	case o.Tris == 0:
 		run.Count("tris:0")
-	case o.tris < 100:
+	case o.Tris < 100:
 		run.Count("tris:1-99")
-	case o.tris < 1000:
+	case o.Tris < 1000:
 		run.Count("tris:100-999")
 	default:
 		run.Count("tris:1000+")
@@ -1007,6 +1038,16 @@ func cpuClass(c float64) string {
 }
 
 func main() {
+	if len(os.Args) > 1 && os.Args[1] == "-one" {
+		var d Desc
+		if err := json.NewDecoder(os.Stdin).Decode(&d); err != nil {
+			fmt.Fprintln(os.Stderr, err)
+			os.Exit(2)
+		}
+		o := evalCase(d)
+		json.NewEncoder(os.Stdout).Encode(o)
+		return
+	}
 	run := hx.ParseFlags("C09", "Check.C09")
 	hires, pinch := false, false
 	for _, a := range flag.Args() {
@@ -1088,7 +1129,7 @@ func main() {
 	// a failing sheet: find the single patterns that fail, as small replayable cases
 	extra := []*job{}
 	for _, j := range jobs {
-		if j.sheet >= 0 && j.o.goFail != "" {
+		if j.sheet >= 0 && j.o.GoFail != "" {
 			singles := []*job{}
 			for bits := 1; bits < 256; bits++ {
 				singles = append(singles, newJob("cell-pattern", sheetSingle(j.d, j.sheet, bits)))
@@ -1096,7 +1137,7 @@ func main() {
 			evalAll(singles)
 			n := 0
 			for _, sj := range singles {
-				if sj.o.goFail != "" && n < 4 {
+				if sj.o.GoFail != "" && n < 4 {
 					extra = append(extra, sj)
 					n++
 				}
